@@ -119,3 +119,27 @@ def subscript_index(sub):
     if isinstance(s, ast.Tuple):
         return list(s.elts)
     return [s]
+
+
+def alpha_normalise(nodes, keep=()):
+    """
+    text of a statement list with every local variable (a Name that is stored somewhere in `nodes`, not in `keep`) replaced by v0, v1, ...
+    in order of first occurrence: two statement lists that differ only in the names of their locals have the same text.
+    """
+    import copy
+    nodes = [copy.deepcopy(n) for n in nodes]
+    stored = []
+    for n in nodes:
+        for x in ast.walk(n):
+            if isinstance(x, ast.Name) and isinstance(x.ctx, (ast.Store, ast.Del)) and x.id not in keep and x.id not in stored:
+                stored.append(x.id)
+    order = {}
+    for n in nodes:
+        for x in ast.walk(n):
+            if isinstance(x, ast.Name) and x.id in stored and x.id not in order:
+                order[x.id] = "v%d" % len(order)
+    for n in nodes:
+        for x in ast.walk(n):
+            if isinstance(x, ast.Name) and x.id in order:
+                x.id = order[x.id]
+    return [dump(n) for n in nodes]
